@@ -232,7 +232,8 @@ fn check_gcd_factors(
 
 fn chebyshev_modn(zn: &ZmodN, g: &MInt, exp: u64) -> MInt {
     if exp == 0 {
-        return zn.one();
+        // u(0P) = 2
+        return zn.add(&zn.one(), &zn.one());
     }
     // Use the simple binary Lucas chain [Montgomery]
     // 2n P is obtained by doubling nP
